@@ -40,6 +40,8 @@ def dec_stream(tier, seed, focus="c08"):
             out.append(("decq " + hx(b"l" * d + b"e" * (d - 1)), "deep:unclosed"))
         for doc in par_docs():
             out.append(("par " + hx(doc), "parallel"))
+        for doc, tag in G.prefix_key_dicts(Rng(seed, "prefix-keys", 0), 60 if tier == "quick" else 1500):
+            out.append(("dec " + hx(doc), tag))
     n = 6000 if tier == "quick" else 150000
     for i in range(n):
         rng = Rng(seed, "dec", i)
@@ -104,6 +106,10 @@ def total_stream(tier, seed):
             out.append(("load " + hx(G.benc(G.meta_doc(name=nm, piece_length=4, length=3))), "long-name"))
         else:
             out.append(("load " + hx(G.benc(G.meta_doc(name=b"t", piece_length=4, files=[(3, [b"d", nm])]))), "long-name"))
+    for i in range(4000 if tier == "quick" else 80000):
+        # the type-directed metainfo generator with its targeted defects (missing, mistyped, extreme fields): none may panic
+        data, tag = G.gen_meta(Rng(seed, "total-meta", i))
+        out.append(("load " + hx(data), "meta:" + tag.split("+")[-1] if "+" in tag else "meta"))
     n = 1500 if tier == "quick" else 40000
     for i in range(n):
         rng = Rng(seed, "total", i)
@@ -137,8 +143,21 @@ def load_stream(tier, seed):
                 out.append(("load " + hx(v), vtag))
     return out
 
-def c07_stream(tier, seed):
+def c07_block_docs(tier):
     out = []
+    for k in ([1, 2] if tier == "quick" else [1, 2, 3, 4]):
+        for delta in (-1, 0, 1):
+            d = G.info_of_exact_length(k * 65536 + delta)
+            if d is not None:
+                out.append(("load " + hx(d), "info of %d*65536%+d bytes" % (k, delta)))
+    for n in (4096, 8192, 16384, 32768, 1 << 20):
+        d = G.info_of_exact_length(n)
+        if d is not None:
+            out.append(("load " + hx(d), "info of %d bytes" % n))
+    return out
+
+def c07_stream(tier, seed):
+    out = c07_block_docs(tier)
     for b in range(256):
         out.append(("hex " + hx(bytes([b])), "hex1"))
     n = 1500 if tier == "quick" else 40000
